@@ -57,7 +57,63 @@ partial def specEq : PV Int → PV Int → Option Bool
   | .hm _ _, _ => some false
   | .other _, _ => none
 
+/-! ### request dictionaries
+
+`reqdict <n> (<name-hex> <value-hex>)*n` — the (name, value) pairs of a request's header lines or query parameters in WIRE order,
+names as net/http hands them over (header names canonicalised, query names percent-decoded: that step is the runtime's).
+
+  model  `Model.MapSites.firstValueDict` (buildFirstValueDict as repaired) on the Go map `Header.Add` / `ParseQuery` build
+         (one entry per name, values appended in wire order), ranged in the REVERSE of the order the names first appear;
+  spec   one entry per distinct name, names ascending byte-wise, each with the FIRST value the wire gives that name
+         (written without a map: sort the distinct names, look each one up in the wire list).
+
+answer: `{<name-hex>=s:<value-hex>,…}` — the canonical form of the dictionary the program is handed. -/
+
+def bytesOfHex (s : String) : List Nat :=
+  if s == "-" then [] else
+  let rec go : List Char → List Nat
+    | a :: b :: r => ((hexDigit? a).getD 0 * 16 + (hexDigit? b).getD 0) :: go r
+    | _ => []
+  go s.toList
+
+/-- Go's `<=` on strings: byte-wise lexicographic -/
+def bytesLe : List Nat → List Nat → Bool
+  | [], _ => true
+  | _ :: _, [] => false
+  | a :: x, b :: y => if a < b then true else if b < a then false else bytesLe x y
+
+/-- `m[k] = append(m[k], v)` -/
+def addValue (k : List Nat) (v : String) : GoMap (List Nat) (List String) → GoMap (List Nat) (List String)
+  | [] => [(k, [v])]
+  | (k', vs) :: r => if k' = k then (k', vs ++ [v]) :: r else (k', vs) :: addValue k v r
+
+def wirePairs : List String → List (List Nat × String)
+  | n :: v :: r => (bytesOfHex n, v) :: wirePairs r
+  | _ => []
+
+def insertSorted (k : List Nat) : List (List Nat) → List (List Nat)
+  | [] => [k]
+  | x :: r => if k = x then x :: r else if bytesLe k x then k :: x :: r else x :: insertSorted k r
+
+def specReqDict (ps : List (List Nat × String)) : List (List Nat × String) :=
+  (ps.foldl (fun acc p => insertSorted p.1 acc) []).filterMap fun k => (ps.find? fun p => p.1 == k)
+
+def hex2 (n : Nat) : String := String.ofList (Nat.toDigits 16 (n / 16) ++ Nat.toDigits 16 (n % 16))
+
+def showReqDict (d : List (List Nat × String)) : String :=
+  "{" ++ ",".intercalate (d.map fun p => (if p.1.isEmpty then "-" else String.join (p.1.map hex2)) ++ "=s:" ++ p.2) ++ "}"
+
 def handle (op : String) (args : List String) : Option String :=
+  if op == "reqdict" || op == "spec:reqdict" then
+    match args with
+    | _ :: rest =>
+      let ps := wirePairs rest
+      if op == "reqdict" then
+        let m := ps.foldl (fun m p => addValue p.1 p.2 m) []
+        some (showReqDict (firstValueDict bytesLe m m.reverse))
+      else some (showReqDict (specReqDict ps))
+    | _ => some "bad-args"
+  else
   if op == "xeqtree" || op == "spec:xeqtree" then
     match args with
     | fuel :: rest =>
